@@ -205,12 +205,31 @@ class Pools:
         if len(self.valid) < 500:
             raise tlc.MachineryFailure(f"only {len(self.valid)} corpus frames decode: corpus missing?")
         self._vi = 0
+        # "kin" focus: all lines of one stream (the good ones and the ones derived into bad ones) are frames of one
+        # verb/code heard from several devices - what per-code state kept across packets in the receive path
+        # (sync-cycle tracking, array-fragment detection, ...) needs in order to show
+        self.by_kind: dict[tuple[str, str], list[str]] = {}
+        for f in self.valid:
+            self.by_kind.setdefault((f[41 - 4:41], f[:2]), []).append(f)
+        self.by_kind = {k: v for k, v in self.by_kind.items()
+                        if len({gen.shape_of(*gen.frame_fields(x)[2:5])[1] for x in v if gen.shape_of(*gen.frame_fields(x)[2:5])}) >= 2}
+        self.kinds = sorted(self.by_kind)
+        self.focus: tuple[str, str] | None = None
+        self._ki = 0
         self.escapers: list[str] = []  # lines found by stage A whose exception escapes (one per signature)
         self.template_only = False     # counter-example replays use the modelled class only
 
     def next_valid(self) -> str:
+        if self.focus is not None:
+            pool = self.by_kind[self.focus]
+            self._ki += 1
+            return pool[self._ki % len(pool)]
         self._vi = (self._vi + 1) % len(self.valid)
         return self.valid[self._vi]
+
+    def refocus(self, rng: random.Random, p: float = 0.35) -> None:
+        """Called once per stream / source: with probability p the stream is about one verb/code only."""
+        self.focus = rng.choice(self.kinds) if self.kinds and rng.random() < p else None
 
     def content(self, cls: str) -> str:
         rng = self.rng
@@ -233,6 +252,7 @@ def concretise(sym: list[str], cuts: list[int], pools: Pools, rng: random.Random
     """symbols + cuts -> byte chunks.  Every line (and the unterminated tail) gets one content text that
     is split over the line's x/z symbols.  Returns the item skeleton (sym, content, lines' bytes, chunks)."""
     lines, tail = py_split(sym)
+    pools.refocus(rng)
     sym_bytes: list[bytes] = []
     contents: list[str] = []
     line_texts: list[bytes] = []
@@ -363,6 +383,7 @@ class PortRunner:
 
 def shape_lines(shape: tuple[str, ...], pools: Pools, rng: random.Random) -> list[tuple[bool, str, str]]:
     out = []
+    pools.refocus(rng)
     for k, cls in enumerate(shape, 1):
         f = pools.next_valid()
         tag, rest = gen.line_of_class(cls, rng, [f])
@@ -732,6 +753,42 @@ def deep_cut_streams(b: dict, pools: Pools, rng: random.Random) -> list[tuple[li
     return out
 
 
+def kin_streams(pools: Pools, rng: random.Random, full: bool) -> list[tuple[list[str], list[int], dict]]:
+    """Systematic, not random: for every verb/code that the corpus shows from two or more devices, a stream
+    [good frame of device A, a *bad* line derived from it, good frame of device B, good frame of A, another good
+    frame] for each badness operator - state that the receive path keeps per code across packets (sync-cycle
+    tracking, array-fragment detection) must not let the bad line harm the good ones that follow."""
+    out = []
+    for kind in pools.kinds:     # every kind in both tiers; the quick tier uses two operators and one read
+        frames = pools.by_kind[kind]
+        srcs: dict[str, str] = {}
+        for f in frames:
+            sh = gen.shape_of(*gen.frame_fields(f)[2:5])
+            if sh:
+                srcs.setdefault(sh[1], f)
+        (sa, fa), (sb, fb) = list(srcs.items())[:2]
+        v, sq, a0, a1, a2, c, _l, _p = gen.frame_fields(fa)
+        bads = [gen.make_frame(v, a0, a1, a2, c, "FE", sq), gen.make_frame(v, a0, a1, a2, c, "FE" * 7, sq),
+                gen.wrong_length(fa, (int(fa[42:45]) + 1) % 1000), gen.mutants(fa, rng, 1)[0][1]]
+        pools.focus = None
+        other = pools.next_valid()
+        for bad in (bads if full else bads[:1] + bads[2:3]):
+            texts = [f"045 {fa}", f"045 {bad}", f"045 {fb}", f"045 {fa}", f"045 {other}"]
+            sym: list[str] = []
+            bs: list[bytes] = []
+            for t in texts:
+                for ch in t.encode("ascii", "replace"):
+                    sym.append("x")
+                    bs.append(bytes([ch]))
+                sym += ["CR", "LF"]
+                bs += [b"\r", b"\n"]
+            n = len(sym)
+            out.append((sym, [n], {"texts": texts, "bytes": bs}))
+            if full:
+                out.append((sym, [n // 2, n - n // 2], {"texts": texts, "bytes": bs}))
+    return out
+
+
 def concretise_chars(sym: list[str], cuts: list[int], extra: dict) -> dict:
     texts, bs = extra["texts"], extra["bytes"]
     chunks, p = [], 0
@@ -792,6 +849,8 @@ def main(tier: str, replay: str | None) -> None:
                     for _ in range(b["conc_per_beh"]):
                         out.append(await runner.run(concretise(list(sym), list(cuts), pools, rng)))
                 for sym, cuts, extra in deep_cut_streams(b, pools, rng):
+                    out.append(await runner.run(concretise_chars(sym, cuts, extra)))
+                for sym, cuts, extra in kin_streams(pools, rng, tier != "quick"):
                     out.append(await runner.run(concretise_chars(sym, cuts, extra)))
             finally:
                 runner.close()
